@@ -124,4 +124,20 @@ Pre ==
        /\ s.f.OrigTtl = rrset[1].ttl
        /\ s.f.Labels = Len(rrset[1].name) - (IF rrset[1].name[1] = Star THEN 1 ELSE 0)
        /\ CanonOwner(rrset[1].name, s.f.Labels) = LowerName(rrset[1].name)       \* no substitution for the signed owner itself
+
+\* Key tags (RFC 4034 appendix B: ONE fold of the carry), committed vectors:
+\*  1 the DNSKEY of RFC 4034 s.5.4, "key id = 60485";
+\*  2, 3 keys constructed so that the 32-bit sum S has (S mod 2^16) + (S div 2^16) >= 2^16: a second end-around carry (a loop
+\*    instead of the single fold) would give a tag one higher.  Expected values computed with the C code of appendix B.
+Rfc5p4Key == <<1, 3, 158, 138, 36, 116, 24, 227, 24, 144, 59, 33, 90, 132, 138, 207, 213, 243, 127, 2, 107, 212, 6, 45, 178, 108, 119, 76, 105, 9,
+  104, 213, 213, 109, 248, 191, 218, 145, 230, 243, 109, 154, 39, 152, 136, 244, 19, 51, 53, 124, 94, 96, 41, 153, 13, 16, 253, 245, 102, 48, 98,
+  165, 18, 118, 51, 38, 152, 10, 97, 93, 219, 241, 122, 5, 221, 252, 206, 126, 95, 179, 171, 204, 160, 90, 49, 176, 149, 116, 82, 212, 82, 30, 131,
+  135, 7, 137, 6, 49, 21, 191, 151, 246, 195, 8, 204, 245, 124, 220, 156, 231, 254, 16, 246, 237, 27, 208, 204, 6, 96, 3, 140, 80, 220, 219, 15,
+  235, 150, 60, 47, 23>>
+KT(fl, pr, al, pk) == KeyTagOf([Flags |-> fl, Protocol |-> pr, Algorithm |-> al, PublicKey |-> pk])
+ASSUME KeyTagVectors ==
+  /\ KT(256, 3, 5, Rfc5p4Key) = 60485
+  /\ KT(64480, 3, 15, [i \in 1..32 |-> i]) = 0                                   \* a looping fold: 1
+  /\ KT(58733, 3, 15, [i \in 1..32 |-> (7 * (i - 1) + 200) % 256]) = 3          \* a looping fold: 4
+  /\ KT(58731, 3, 15, [i \in 1..32 |-> (7 * (i - 1) + 200) % 256]) = 1
 =============================================================================
